@@ -1115,11 +1115,11 @@ theorem gaStep_fold_name (d : String) : ∀ (L : List Axis) (acc : Option Axis) 
       | some c1 =>
         unfold C12J.gaStep at hs
         simp only [bind, Except.bind] at hs
-        have hcn : (if (c1.size == 1 && decide (x.size > 1)) = true then x else c1).name = d := by
+        have hcn : (if (c1.size == 1 && x.size != 1) = true then x else c1).name = d := by
           split
           · exact hx
           · exact hacc c1 rfl
-        generalize (if (c1.size == 1 && decide (x.size > 1)) = true then x else c1) = common at hs hcn
+        generalize (if (c1.size == 1 && x.size != 1) = true then x else c1) = common at hs hcn
         split at hs
         · cases hs
         · simp only [pure, Except.pure, Except.ok.injEq, Option.some.injEq] at hs
